@@ -269,6 +269,9 @@ def one_scenario(run, seed, idx, mods, mode):
     minpks = int(max(3, nper * float(r.uniform(0.25, 0.5))))
     boundary = mode == "ideal" and r.random() < 0.25
     single_ring = False
+    force_reset = mode == "ideal" and idx % 5 == 2 and idx % 6 != 4
+    if force_reset:
+        boundary = False
     if mode == "ideal" and idx % 6 == 4:
         # all supplied g-vectors lie on ONE powder ring (a low d* cut-off): the only ring pair is that ring with itself.
         # Use a ring with >= 8 members (non-collinear pairs exist for every grain), few grains, and ask for nearly all of a
@@ -294,6 +297,8 @@ def one_scenario(run, seed, idx, mods, mode):
     ncls = "ideal"
     hmax = float(np.abs(hk).max())
     route = str(r.choice(["score_all_pairs", "index", "do_index", "index2", "do_index2"], p=[0.4, 0.15, 0.15, 0.15, 0.15]))
+    if force_reset:
+        route = "score_all_pairs"
     if single_ring:
         route = str(r.choice(["score_all_pairs", "index"]))
         ncls = "ideal-single-ring"
@@ -361,6 +366,7 @@ def one_scenario(run, seed, idx, mods, mode):
         run.violation(key, what, dict(desc, ubi_index=k))
 
     uc = unitcell.unitcell(cell, sym)
+    skip_passes, reset_dirty = 0, None
     logging.disable(logging.CRITICAL)
     try:
         with quiet(), contextlib.redirect_stderr(io.StringIO()), PassLog(indexing) as plog:
@@ -376,6 +382,20 @@ def one_scenario(run, seed, idx, mods, mode):
                     route = "score_all_pairs:rings_to_use"
                 else:
                     ix.score_all_pairs()
+                    rh = rng(seed, "C08", "reset", mode, idx)
+                    if mode == "ideal" and not boundary and not single_ring and (force_reset or rh.random() < 0.4):
+                        # one indexer object, two searches: reset() must give back an empty indexer, and a second search
+                        # asking for (nearly) complete grains must be judged on its own
+                        ix.reset()
+                        run.count("reset_histories")
+                        if len(ix.ubis) or len(ix.scores) or (np.asarray(ix.ga) != -1).any():
+                            reset_dirty = "after reset() the indexer still holds %d orientations, %d scores, %d assigned peaks" \
+                                % (len(ix.ubis), len(ix.scores), int((np.asarray(ix.ga) != -1).sum()))
+                        skip_passes = len(plog.passes)
+                        minpks = nper - 1
+                        ix.minpks = minpks
+                        ix.score_all_pairs()
+                        route = "score_all_pairs:after-reset"
                 ubis = [np.array(u) for u in ix.ubis]
             else:
                 cf = columnfile.colfile_from_dict({"gx": gv[:, 0].copy(), "gy": gv[:, 1].copy(), "gz": gv[:, 2].copy(),
@@ -408,7 +428,9 @@ def one_scenario(run, seed, idx, mods, mode):
         return
     finally:
         logging.disable(logging.NOTSET)
-    passes = list(plog.passes)
+    passes = list(plog.passes)[skip_passes:]
+    if reset_dirty:
+        V("reset:not-empty", reset_dirty)
     run.count("indexer_runs")
     if len(passes) != len(ubis):
         run.count("pass_log_mismatch")
@@ -493,5 +515,6 @@ def check(run, replay=None):
     run.require_counter("boundary_minpks_scenarios", 3)
     run.require_counter("hiorder_scenarios", 8)
     run.require_counter("single_ring_scenarios", 3)
+    run.require_counter("reset_histories", 2)
     run.require_counter("multi_pass_runs", 3)
     run.require_counter("cell_bound_evaluated", 20)
